@@ -161,7 +161,7 @@ def _crop_family(ctx: Ctx, F) -> None:
                 if size == "sym":
                     continue
                 # center crop / pad (floor division: concrete sizes only)
-                for tgt in ((3, 4, 2)[:D], (5, 2, 6)[:D], 4):
+                for tgt in ((3, 4, 2)[:D], (5, 2, 6)[:D], 4, (9, 3, 12)[:D], (4, 11, 2)[:D], 20):  # incl. requests larger than the grid (clamped per axis)
                     tt = (tgt,) * D if isinstance(tgt, int) else tgt
                     def thc(tgt=tgt, tt=tt):
                         g2 = it.method(g, "center_crop", tgt)
@@ -169,7 +169,7 @@ def _crop_family(ctx: Ctx, F) -> None:
                         off = [(m - n) // 2 for m, n in zip(sz, size2)]
                         return env.check_rel(g2, [1] * D, off, size2)
                     _guard(ctx, "T9.crop-family", f"{tag}:center_crop:{tgt}", F["center_crop"], f"op=center_crop size={tgt} {tag}", thc)
-                for tgt in ((9, 12, 7)[:D], (8, 5, 10)[:D], 11):
+                for tgt in ((9, 12, 7)[:D], (8, 5, 10)[:D], 11, (3, 12, 4)[:D], (10, 2, 3)[:D], 1):  # incl. requests smaller than the grid (kept per axis)
                     tt = (tgt,) * D if isinstance(tgt, int) else tgt
                     def thp(tgt=tgt, tt=tt):
                         g2 = it.method(g, "center_pad", tgt)
